@@ -2,7 +2,7 @@
    Property theorems only: each is closed by `exact <lemma>`; Print Assumptions must report a closed term. *)
 From Coq Require Import List Bool Arith.
 Import ListNotations.
-Require Import PonyV.Model.C03Bexp PonyV.Proofs.C03Checker PonyV.Model.C03Decomp PonyV.Model.C03Family PonyV.Proofs.C03Roundtrip PonyV.Proofs.C03RoundtripCnf PonyV.Proofs.C03RoundtripIf PonyV.Proofs.C03CompileSound
+Require Import PonyV.Model.C03Bexp PonyV.Proofs.C03Checker PonyV.Model.C03Decomp PonyV.Model.C03Family PonyV.Proofs.C03Roundtrip PonyV.Proofs.C03RoundtripCnf PonyV.Proofs.C03RoundtripIf PonyV.Proofs.C03Roundtrip3 PonyV.Proofs.C03Roundtrip3Run PonyV.Proofs.C03CompileSound
                PonyV.Model.C03Cache PonyV.Proofs.C03CacheProofs PonyV.Gen.C03CacheKey.
 
 (* The oracle the harness uses to judge every output of the real decompiler: if the truth-table checker accepts a pair
@@ -36,10 +36,13 @@ Print Assumptions C03_checker_truth_complete.
 
    It is FALSE: Findings/C03.v, C03_refuted_filter_wrong_And_Or
    (`a and ((b or c and d) and e or g)` comes back as `(a and (b or c and d) and e) or g`); the real decompiler behaves the
-   same way (known finding filter:wrong:And+Or).  What is proved are the two unbounded sub-families below; what is missing for a
-   theorem on the complement of the refuted inputs is a characterisation of the nestings on which analyze_jumps'
-   "an or-jump strictly between" test classifies every jump correctly (alternating and/or nesting of depth >= 3 under an
-   outer `and` is where it fails) - not attempted.
+   same way (known finding filter:wrong:And+Or).  What is proved are the unbounded sub-families below, the largest being all
+   expressions of nesting depth 3 with `or` outermost (C03_andor_depth3).  analyze_jumps' "an or-jump strictly between" test
+   is characterised in general (Proofs/C03Roundtrip3.v, or_jumps_classified: or_jumps is exactly any set S of jumps such
+   that no S-jump to a farther target lies strictly between an S-jump and its target and every other forward jump has one),
+   and it is RIGHT on the refuted input; the wrong tree there comes from process_target's limit `targets[pos]` naming a
+   clause that an earlier merge has already swallowed.  A theorem for the complement of the refuted inputs needs an
+   invariant over the whole stack / targets table for arbitrary nesting - not attempted.
    ------------------------------------------------------------------------------------------------------------------ *)
 
 (* C03_andor_partial: every `or` of `and`s of literals - any number of alternatives, any widths, hence also a single `and`
@@ -75,6 +78,33 @@ Example C03_andor_partial_cnf_nonvacuous :
   cnf [[Lit false 0; Lit true 1]; [Lit false 2]; [Lit true 3; Lit false 4; Lit false 5]] =
     And [Or [Atom 0; Not (Atom 1)]; Atom 2; Or [Not (Atom 3); Atom 4; Atom 5]].
 Proof. reflexivity. Qed.
+
+(* C03_andor_depth3: nesting depth 3 with `or` outermost.  Every `or` of (at least two) alternatives, each alternative an
+   `and` of conjuncts (or a single literal), each conjunct a literal or an `or`-clause of literals - any number of
+   alternatives, conjuncts and literals - written as the filter of a generator decompiles to exactly itself.
+   (All conjuncts literals: the DNF family above with >= 2 alternatives.)  The registered limit for the body may be stale
+   here (first alternative ending in an `or`-clause); the proof shows that it is then harmless. *)
+Theorem C03_andor_depth3 : forall alts, wf3 alts -> decompile PFilter (dnf3 alts) = Some (dnf3 alts).
+Proof. exact roundtrip_dnf3. Qed.
+Print Assumptions C03_andor_depth3.
+
+Theorem C03_andor_depth3_meaning : forall alts, wf3 alts ->
+  exists e', decompile PFilter (dnf3 alts) = Some e' /\ forall rho, eval rho e' = eval rho (dnf3 alts).
+Proof. exact roundtrip_dnf3_meaning. Qed.
+Print Assumptions C03_andor_depth3_meaning.
+
+(* non-vacuity: `(a or not b) and c or d or e and (x == y or g is None or h) and (i or j)` is in the family *)
+Example C03_andor_depth3_nonvacuous :
+  wf3 [[[Lit false 0; Lit true 1]; [Lit false 2]]; [[Lit false 3]];
+       [[Lit false 4]; [LCmp false false 5 6; LIsN false 7; Lit false 8]; [Lit false 9; Lit false 10]]] /\
+  dnf3 [[[Lit false 0; Lit true 1]; [Lit false 2]]; [[Lit false 3]];
+        [[Lit false 4]; [LCmp false false 5 6; LIsN false 7; Lit false 8]; [Lit false 9; Lit false 10]]] =
+    Or [And [Or [Atom 0; Not (Atom 1)]; Atom 2]; Atom 3;
+        And [Atom 4; Or [Cmp false (Atom 5) (Atom 6); IsNone false (Atom 7); Atom 8]; Or [Atom 9; Atom 10]]].
+Proof.
+  split; [|reflexivity]. split; [cbn; auto with arith|].
+  repeat constructor; try discriminate; cbn; auto.
+Qed.
 
 (* A family with a conditional expression, in ELEMENT position: (xa if t1 and ... and tn else xb for x in T), any n >= 1,
    comes back as exactly itself (partial + full process_target of JUMP_FORWARD, classification by jump sense after
